@@ -674,7 +674,8 @@ impl Case {
                 signature: asig.clone(),
             });
         }
-        let filtered = match self.app.filter_existing_node(remote_nodes).await {
+        // as `synchronise_day` does since /repo ffeda5d: ids that carry a deletion record of the room are not requested
+        let filtered = match self.app.filter_existing_room_node(room_id, remote_nodes).await {
             Ok(f) => f,
             Err(e) => return dberr("filter", e.to_string()),
         };
